@@ -82,17 +82,19 @@ CLAIMED = {
         "The equivalence of the state machine with the nested-loop Rust parser is what the correspondence tests."),
  "C06": dict(
    text="Coq theorems C06_record_converges (for every record, answer, configuration, separator and regex oracle satisfying the escape law, outside the known classes D5/D12: the rewritten record, "
-        "as read back, passes the judge on the same answer and is a fixed point of the rewrite) and C06_untouched_passes, about the model of update_record_with_output / from_actual_error / regex::escape. "
-        "File level by correspondence: Runner::update_test_file on generated trees (mostly wrong expectations, includes, both separators, strict/default columns) with scripted databases, then run_file "
+        "as read back, passes the judge on the same answer and is a fixed point of the rewrite), C06_untouched_passes, and at FILE level C06_file_converges (for every flattened record list of a file with its includes, every initial state and "
+        "scripted world: if the update completes without a known-finding flag and no command fails, the rewritten list as re-read passes under run_multi from the same state and world issuing exactly the same connects, requests and sleeps, and a "
+        "second update is a fixed point; premises retry>=1 and equal strictness shown necessary by counterexamples) with C06_written_is_updated_records, about the model of update_test_file / update_record_with_output / from_actual_error / regex::escape. "
+        "File level also by correspondence: Runner::update_test_file on generated trees (mostly wrong expectations, includes, both separators, strict/default columns) with scripted databases, then run_file "
         "against the same database, then a second update; bytes compared with the model (parser+apply_record+update_record+display+trimmer), L1 evaluated on the implementation. Six defects found and fixed (D3 D4 D6 D7 D17 D8).",
-   ref="4/C06", technique="Coq proof (record-level convergence) + differential correspondence with rerun and second update on real trees",
-   note="Trusted: Coq kernel; regex is_match oracle with the escape law as premise (tested); file-level convergence (same request sequence on rerun) is checked, not proved: partial. Known findings D5, D12 listed."),
+   ref="4/C06", technique="Coq proof (record-level and file-level convergence) + differential correspondence with rerun and second update on real trees",
+   note="Trusted: Coq kernel; regex is_match oracle with the escape law as premise (tested); the text layer between the written bytes and the re-read records is C05's theorem (the composition is stated, not re-proved as one statement). Known findings D5, D12 listed; D18 found by this proof and fixed."),
  "C07": dict(
    text="Coq theorems C07_frame (only the expectation may change), C07_only_kind_change (query -> statement count N only for a statement completion), C07_skipped_unchanged, C07_failed_command_unchanged, "
-        "C07_pass_keeps (a passing record keeps its expectation as written; row-wise mode). Correspondence: records before/after Runner::update_test_file compared field by field; records that pass (Runner::run "
+        "C07_pass_keeps (a passing record keeps its expectation as written; row-wise mode), C07_file_frame_and_halt (file level: one record out per record in, same kind and position, markers/halts/non-executable records verbatim, every record from the first halt of the flattened list on - in whichever file - written exactly as it was). Correspondence: records before/after Runner::update_test_file compared field by field; records that pass (Runner::run "
         "on the original), are skipped, lie after halt, or are failing commands must keep their expectation; half of the cases are fixed points of a previous update so that many expectations are correct.",
    ref="4/C07", technique="Coq proof (finite case analysis over update_record) + differential correspondence",
-   note="Trusted: Coq kernel; D5 (value-wise mode) is a listed known finding; file-level order/number of records checked on the implementation."),
+   note="Trusted: Coq kernel; D5 (value-wise mode) is a listed known finding; D18 (halt scoped per file) found and fixed; 'lies after halt' is judged by the property's meaning (first halt of the flattened script)."),
  "C08": dict(
    text="Coq theorems C08_atomic (after EVERY prefix of the operation sequence - create temp, appends, truncations, rename - every file being rewritten holds its old or its complete new content), "
         "C08_only_rename_touches_originals, C08_final (completion: new content everywhere, no temp file), C08_trim (any number of trailing newlines -> exactly one, all sizes), C08_trim_empty, C08_trim_never_panics, "
